@@ -78,7 +78,9 @@ ChanSend(cs, ch, msg, r, pos, t, out) ==
        ELSE IF LimitOf[ch] >= 0 /\ cs.acc + BytesOf[msg.size] > LimitOf[ch] THEN <<cs, out>>
        ELSE <<[cs EXCEPT !.q = Append(@, [msg |-> msg, r |-> r, pos |-> pos]), !.acc = @ + BytesOf[msg.size]], out>>
   ELSE LET tx == TxOf[ch][msg.size]
-           o1 == IF tx # 0 THEN Append(out, <<[k |-> "unbusy", ch |-> ch], t + tx>>) ELSE out
+           (* the transmission starts: what a ChannelProbe sees (pseudo event, routed into the log by Flush) *)
+           o0 == Append(out, <<[k |-> "tx", ch |-> ch, id |-> msg.id], t>>)
+           o1 == IF tx # 0 THEN Append(o0, <<[k |-> "unbusy", ch |-> ch], t + tx>>) ELSE o0
            o2 == Append(o1, <<[k |-> "exit", r |-> r, pos |-> pos, msg |-> msg], t + tx + LatOf[ch]>>) IN
        <<[cs EXCEPT !.busy = (tx # 0), !.until = IF tx # 0 THEN t + tx ELSE 0], o2>>
 
@@ -124,7 +126,11 @@ Exec(m, t, cmds, S) ==
 
 (* flush a sequence of <<ev, t>> into the event set in emission order *)
 RECURSIVE Flush(_, _, _)
-Flush(W, cur, out) == IF out = <<>> THEN W ELSE Flush(AddEv(W, cur, out[1][1], out[1][2]), cur, Tail(out))
+Flush(W, cur, out) ==
+  IF out = <<>> THEN W
+  ELSE LET x == out[1] IN
+       Flush(IF x[1].k = "tx" THEN [W EXCEPT !.log = Append(@, [o |-> "tx", ch |-> x[1].ch, id |-> x[1].id, t |-> cur])]
+             ELSE AddEv(W, cur, x[1], x[2]), cur, Tail(out))
 
 (* processing-element brackets around one module event; `msgid` = -1 for events without message *)
 RECURSIVE PEUp(_, _, _, _, _)
@@ -153,7 +159,9 @@ Invoke(W, S, m, t, what, msg, hasMsg, cmds) ==
       reaches == (~hasMsg) \/ up[2]                      \* the handler runs unless an element consumed the message
       Sa == [S EXCEPT !.chan = W.chan, !.nextMsg = W.nextMsg, !.act = W.active, !.panic = FALSE]
       Sb == IF reaches THEN Exec(m, t, cmds, Sa) ELSE Sa
-      hlog == IF reaches THEN <<what>> ELSE <<>>
+      (* module a also reports what Channel::is_busy / transmission_finish_time say about its outgoing channel *)
+      hlog == IF reaches THEN <<what>> \o (IF m = "a" /\ 1 \in Chans THEN <<[o |-> "ch", m |-> m, busy |-> W.chan[1].busy, until |-> W.chan[1].until]>> ELSE <<>>)
+              ELSE <<>>
       (* a panic that is reported (non-catching stereotype) leaves the event at once: no event_end;   *)
       (* a caught panic lets the event finish normally                                             *)
       down == IF Sb.panic /\ ~NewCatch(m, Sb)[m] THEN <<>> ELSE PEDown(m, Stack[m])
